@@ -344,15 +344,9 @@ func (dm *ClusterDMap) Lock(ctx context.Context, key string, deadline time.Durat
 		return nil, err
 	}
 
-	cmd := protocol.NewLock(dm.name, key, deadline.Seconds()).Command(ctx)
-	err = rc.Process(ctx, cmd)
+	token, err := dm.lockInSlices(ctx, rc, key, 0, deadline)
 	if err != nil {
-		return nil, processProtocolError(err)
-	}
-
-	token, err := cmd.Bytes()
-	if err != nil {
-		return nil, processProtocolError(err)
+		return nil, err
 	}
 	return &ClusterLockContext{
 		key:   key,
@@ -376,15 +370,9 @@ func (dm *ClusterDMap) LockWithTimeout(ctx context.Context, key string, timeout,
 		return nil, err
 	}
 
-	cmd := protocol.NewLock(dm.name, key, deadline.Seconds()).SetPX(timeout.Milliseconds()).Command(ctx)
-	err = rc.Process(ctx, cmd)
+	token, err := dm.lockInSlices(ctx, rc, key, timeout, deadline)
 	if err != nil {
-		return nil, processProtocolError(err)
-	}
-
-	token, err := cmd.Bytes()
-	if err != nil {
-		return nil, processProtocolError(err)
+		return nil, err
 	}
 
 	return &ClusterLockContext{
@@ -392,6 +380,47 @@ func (dm *ClusterDMap) LockWithTimeout(ctx context.Context, key string, timeout,
 		token: string(token),
 		dm:    dm,
 	}, nil
+}
+
+// lockInSlices asks for the lock with DM.LOCK requests whose own deadline stays well below the
+// client's read timeout, until the lock is taken or the caller's deadline has passed.
+//
+// DM.LOCK blocks on the member until the lock is acquired or the deadline of the request is over.
+// One request carrying a deadline beyond the read timeout is cut off by the client while the
+// member keeps waiting; the client retries, and every abandoned attempt can still take the lock
+// once it is released - with a token nobody ever receives, so the key stays locked for good.
+func (dm *ClusterDMap) lockInSlices(ctx context.Context, rc *redis.Client, key string, timeout, deadline time.Duration) ([]byte, error) {
+	slice := time.Second
+	if cfg := dm.clusterClient.config; cfg != nil && cfg.config != nil && cfg.config.ReadTimeout > 0 && cfg.config.ReadTimeout/2 < slice {
+		slice = cfg.config.ReadTimeout / 2
+	}
+	end := time.Now().Add(deadline)
+	for {
+		d := time.Until(end)
+		if d > slice {
+			d = slice
+		}
+		if d < 0 {
+			d = 0
+		}
+		lockCmd := protocol.NewLock(dm.name, key, d.Seconds())
+		if timeout != 0 {
+			lockCmd.SetPX(timeout.Milliseconds())
+		}
+		cmd := lockCmd.Command(ctx)
+		err := rc.Process(ctx, cmd)
+		if err == nil {
+			token, err := cmd.Bytes()
+			if err != nil {
+				return nil, processProtocolError(err)
+			}
+			return token, nil
+		}
+		err = processProtocolError(err)
+		if !errors.Is(err, ErrLockNotAcquired) || !time.Now().Before(end) {
+			return nil, err
+		}
+	}
 }
 
 func (c *ClusterLockContext) Unlock(ctx context.Context) error {
